@@ -165,20 +165,23 @@ func H_C15_NewestOldest() {
 	nd.Assert(mem2, "ls/oldest-is-member")
 }
 
-// H_C15_IsExpired: a structure whose expiry lies a day in the past is expired, a day in the future is not (clock symbolic: any instant 2001..2096).
+// H_C15_IsExpired: a structure whose expiry lies more than an hour in the past is expired, more than an hour in the future (up to the end of the 32-bit range) is not (clock symbolic: any instant 2001..2096).
 //
 //verif:props C15
 //verif:witness past future
 //verif:solver cvc5
 func H_C15_IsExpired() {
 	now := nd.NowUnix()
-	past := nd.Bool()
-	var expiry int64
+	// the expiry is ANY instant of the 32-bit seconds range that is more than the clock's drift bound (one hour) away
+	// from now -- it may lie more than 2^31 seconds ahead; large enough for published = expiry - expires to be positive
+	expiry := nd.Int64()
+	nd.Assume(expiry >= 70000 && expiry < 1<<32)
+	past := expiry < now
 	if past {
-		expiry = now - 86400
+		nd.Assume(now-expiry >= 3700)
 		nd.Cover("past")
 	} else {
-		expiry = now + 86400
+		nd.Assume(expiry-now >= 3700)
 		nd.Cover("future")
 	}
 	switch nd.IntRange(0, 5) {
